@@ -63,4 +63,5 @@ fn main() {
     println!("cargo::rustc-check-cfg=cfg(web_test)");
     println!("cargo::rustc-check-cfg=cfg(jemalloc)");
     println!("cargo::rustc-check-cfg=cfg(coverage)");
+    println!("cargo::rustc-check-cfg=cfg(ipa_verif)");
 }
